@@ -6,7 +6,9 @@ A case is a scripted history for ONE master/slave pair:
    'ports': [{'id', 'type', 'value', 'writable', 'enabled', 'custom'?}], 'steps': [[op, args…], …]}
 
   steps  ['wait', dt]
-         ['rvalue', pid, v] ['rattr', pid, name, val] ['radd', pid, type, value] ['rremove', pid] ['rdev', name, val]
+         ['rvalue', pid, v] ['rattr', pid, name, val] ['radd', pid, type, value, extra?] ['rremove', pid] ['rdev', name, val]
+         ['rattrdel', pid, name] ['rattrset', pid, name, val]  — the port is reconfigured on the device: an optional
+               attribute disappears / (re)appears (port-update event with the port's new attribute set)
                — what the DEVICE does (it emits the events a real device emits)
          ['mvalue', pid, v] ['mattr', pid, name, val] ['mdev', name, val] ['mwebhooks', key, val] ['mreverse', key, val]
                — what a consumer does THROUGH THE MASTER's public API functions
@@ -18,7 +20,9 @@ A case is a scripted history for ONE master/slave pair:
                                                                        changes timed INTO the reconnect / sync window
   mode 'push': the master neither listens nor polls; the device POSTs its events to /devices/<name>/events (real
   post_slave_device_events API function, device-origin token) with latency `push_latency`
-  ports may carry 'slow': 'later'|'never' (value writes answered 202 Accepted and applied later / never)
+  ports may carry 'slow': 'later'|'never' (value writes answered 202 Accepted and applied later / never) and 'extra':
+  {name: value} (further attributes: optional ones such as min/max/step, and — the slave being itself a hub —
+  history_* / device_expression / device_history_* which the master must show one `device_` deeper)
 
 `run_real` executes it on the real hub against the simulated slave and returns the observations plus the ordered trace
 of everything that reached the master. `run_model` replays that trace, message by message, on the Lean model (driver)
@@ -29,6 +33,7 @@ from __future__ import annotations
 
 import asyncio
 import json
+import re
 
 from harness.core import Failure
 from harness.simslave_c12 import SimSlave, _call_at_distinct_instant
@@ -37,8 +42,34 @@ MASTER_OWNED = {'id', 'tag', 'online', 'last_sync', 'expires', 'provisioning', '
 NAME = 's1'
 
 
+_FAMILY_RE = re.compile(r'^(device_)*(expression|history_[a-z0-9_]+)$')
+_SHOWN_RE = re.compile(r'^(device_)+(expression|history_[a-z0-9_]+)$')
+
+# names for which the master has a value of its own when the slave reports none (BasePort defaults), or that are not
+# attributes of the slave's port at all
+MASTER_SIDE = MASTER_OWNED | {'expression', 'history_interval', 'history_retention', 'definitions', 'display_name', 'type',
+                              'unit', 'writable', 'enabled', 'persisted', 'internal'}
+
+
 def master_name(n: str) -> str:
-    return 'device_' + n if (n == 'expression' or n.startswith('history_')) else n
+    """Under which name the master shows the slave's attribute `n`: the expression / history family — at any nesting
+    depth, a slave that is itself a hub has device_expression next to expression — gets ONE more `device_`."""
+    return 'device_' + n if _FAMILY_RE.match(n) else n
+
+
+def chain_gap(n: str, sj: dict) -> bool:
+    """`n` is a device_* attribute of the slave's port whose chain is broken below it: SlavePort.get_standard_attrdefs
+    stops at the first missing level (device_history_interval next to no history_interval: a hub without history)."""
+    while _SHOWN_RE.match(n):
+        n = n[7:]
+        if sj.get(n) is None:
+            return True
+    return False
+
+
+def slave_name(n: str) -> str:
+    """The slave attribute shown under the master's name `n` (exactly one `device_` stripped from the family)."""
+    return n[7:] if _SHOWN_RE.match(n) else n
 
 
 class Interner:
@@ -128,6 +159,7 @@ async def run_real(hub, case) -> Real:
         if p.get('custom'):
             defs = {'color': {'type': 'string', 'modifiable': True, 'display_name': 'Color'}}
             extra = {'color': p['custom']}
+        extra.update(p.get('extra') or {})
         sim.add_port(p['id'], p['type'], p['value'], p.get('writable', True), p.get('enabled', True), extra=extra,
                      definitions=defs, event=False)
         if p.get('slow'):
@@ -160,9 +192,15 @@ async def run_real(hub, case) -> Real:
             elif op == 'rattr':
                 if st[1] in sim.ports and (st[2] in sim.ports[st[1]]['attrs']):
                     sim.set_port_attrs(st[1], {st[2]: st[3]})
+            elif op == 'rattrdel':           # the port is reconfigured: an optional attribute disappears
+                if st[1] in sim.ports:
+                    sim.del_port_attr(st[1], st[2])
+            elif op == 'rattrset':           # … (re)appears / changes
+                if st[1] in sim.ports:
+                    sim.set_port_attrs(st[1], {st[2]: st[3]})
             elif op == 'radd':
                 if st[1] not in sim.ports:
-                    sim.add_port(st[1], st[2], st[3])
+                    sim.add_port(st[1], st[2], st[3], extra=(st[4] if len(st) > 4 else None))
             elif op == 'rremove':
                 sim.remove_port(st[1])
             elif op == 'rdev':
@@ -179,7 +217,7 @@ async def run_real(hub, case) -> Real:
         window = None
         for idx, st in enumerate(case['steps']):
             op = st[0]
-            if op in ('wait', 'rvalue', 'rattr', 'radd', 'rremove', 'rdev', 'rfail', 'rdrop', 'flapdown', 'flapup'):
+            if op in ('wait', 'rvalue', 'rattr', 'rattrdel', 'rattrset', 'radd', 'rremove', 'rdev', 'rfail', 'rdrop', 'flapdown', 'flapup'):
                 await remote_step(st)
             elif op == 'restart':
                 before = await observe(hub, sim)
@@ -324,20 +362,25 @@ async def observe(hub, sim) -> dict:
 # Model replay
 # ----------------------------------------------------------------------------------------------------------------
 
-def canon_real_ports(obs, it: Interner, names_of):
-    """Master's view of the slave ports, in the model's vocabulary."""
+def canon_real_ports(obs, it: Interner, names_of, master_name=master_name):
+    """Master's view of the slave ports, in the model's vocabulary (`master_name`: under which name the master shows a
+    slave attribute — the model's `presentName` when replaying on the driver)."""
     out = {}
     for rid, pj in obs['master'].items():
         attrs = {}
+        hidden = set()
         for n in names_of.get(rid, ()):      # slave-side names the slave reported for this port
             if n in MASTER_OWNED:
                 continue
             mn = master_name(n)
             if mn in pj and pj[mn] is not None:
                 attrs[it.name(n)] = it.val(pj[mn])
+            elif _SHOWN_RE.match(n):
+                hidden.add(it.name(n))      # not shown by the master: compared by the oracle (chain_gap), not here
         prov = sorted(it.name(n) for n in pj.get('provisioning', []) if n != 'value')
         out[it.port(rid)] = {'value': it.pval(pj.get('value')),
-                             'prov': prov, 'prov_value': 'value' in pj.get('provisioning', []), 'attrs': attrs}
+                             'prov': prov, 'prov_value': 'value' in pj.get('provisioning', []), 'attrs': attrs,
+                             'hidden': hidden}
     return out
 
 
@@ -417,6 +460,25 @@ def run_model(case, real: Real, driver, fix=(1, 1, 1)):
 
     model_series = {}
     model_cum, real_cum = {}, {}
+
+    # the name under which the master shows a slave attribute is asked from the MODEL (Names.presentName over the live
+    # module's MASTER_ATTRS), so that the mirror comparison below also ties get_attr's name mapping to the model
+    try:
+        from qtoggleserver.slaves import ports as _sp
+        owned = ','.join(sorted(_sp.MASTER_ATTRS))
+    except Exception:
+        owned = None
+    present_cache = {}
+
+    def model_present(n):
+        if owned is None or not re.fullmatch(r'[a-z0-9_]+', n):
+            return master_name(n)
+        if n not in present_cache:
+            rep = driver.ask(f'present-name {owned} {n}')
+            if not rep.startswith('ok '):
+                raise AssertionError(f'model rejected present-name {n}: {rep}')
+            present_cache[n] = rep[3:].strip()
+        return present_cache[n]
 
     def ask(line, nodrain=False):
         if not nodrain and line.split(' ', 1)[0] not in ('begin', 'drain', 'observe'):
@@ -636,8 +698,12 @@ def run_model(case, real: Real, driver, fix=(1, 1, 1)):
                 real_cum.setdefault(k, []).extend(v)
             real_series = {}
             mports, tail = parse_model_state(ask('observe'), it)
-            rports = canon_real_ports(obs, it, names_of)
+            rports = canon_real_ports(obs, it, names_of, model_present)
             mcmp = {k: {x: y for x, y in v.items() if x not in ('cached', 'en')} for k, v in mports.items()}
+            for k, v in rports.items():
+                hid = v.pop('hidden')
+                if k in mcmp and hid:
+                    mcmp[k]['attrs'] = {x: y for x, y in mcmp[k]['attrs'].items() if x not in hid}
             if rports != mcmp:
                 bad = sorted(set(rports) ^ set(mcmp)) or [k for k in rports if rports[k] != mcmp[k]]
                 fail = Failure('correspondence', f'check #{e[1]}: master GET /ports differs from the model for port(s) '
@@ -904,9 +970,22 @@ def oracle_c12(case, real: Real):
                 if n in MASTER_OWNED or v is None:
                     continue
                 mv = mj.get(master_name(n))
+                if mv is None and chain_gap(n, sj):
+                    # known finding C12-device-attr-hidden-below-gap: the level below is missing on the slave's port
+                    return Failure('property', f'check #{ci}: port {rid} attribute {n}: master does not show '
+                                   f'{master_name(n)}, slave has {v!r} (and no {n[7:]})', where='attrs-gap'), tags
                 if mv != v:
                     return Failure('property', f'check #{ci}: port {rid} attribute {n}: master shows '
                                    f'{master_name(n)}={mv!r}, slave has {v!r}', where='attrs'), tags
+            # … and no others: what the master exposes beyond its own attributes is an attribute the slave's port has NOW
+            for mn, mv in mj.items():
+                if mn in MASTER_SIDE or mv is None:
+                    continue
+                if sj.get(slave_name(mn)) is None:
+                    return Failure('property', f'check #{ci}: port {rid}: master exposes {mn}={mv!r}, the slave\'s port '
+                                   f'has no attribute {slave_name(mn)} (any more)', where='attrs-extra'), tags
+            if any(_SHOWN_RE.match(n) for n in sj):
+                tags.add('hub-slave-checked')
             sv = sj['value']
             if mj.get('value') != sv or (sv is not None and type(mj.get('value')) is not type(sv)):
                 return Failure('property', f'check #{ci}: port {rid}: master value {mj.get("value")!r}, slave value '
